@@ -490,6 +490,37 @@ def sort_key_orders_by_name(ctx, fi, loop_node):
         T.show(res)[:80]
 
 
+def array_items_encoded(ctx):
+    """Does encode.field_array append encode_table_value(item) - and
+    nothing else - for every item of its argument?"""
+    prog = ctx.prog
+    fa = prog.module('encode').functions.get('field_array')
+    if fa is None:
+        return False
+    pol = ArmPolicy(prog, {fa.qualname})
+    it, outs = codec.run(prog, fa, None, pol)
+    loops = [l for l in it.loops if l['func'] is fa]
+    okk = False
+    if len(loops) == 1:
+        app = appended_in_loop(it, loops[0])
+        shapes = [items for runs in app.values() for items in runs]
+        okk = bool(shapes) and all(
+            len(items) == 1 and isinstance(items[0], Sym) and
+            items[0].op == 'enc' and
+            items[0].args[0] == 'encode.encode_table_value' and
+            isinstance(items[0].args[1], Sym) and
+            items[0].args[1].op == 'elem' for items in shapes)
+    if not loops:
+        comps = [c for c in it.comps if c['func'] is fa]
+        okk = len(comps) == 1 and len(comps[0]['elts']) == 1 and \
+            isinstance(comps[0]['elts'][0], Sym) and \
+            comps[0]['elts'][0].op == 'enc' and \
+            comps[0]['elts'][0].args[0] == 'encode.encode_table_value' and \
+            isinstance(comps[0]['elts'][0].args[1], Sym) and \
+            comps[0]['elts'][0].args[1].op == 'elem'
+    return okk
+
+
 def check_table_entry_order(chk, ctx, rule):
     fi, P, loops, it, outs = table_loop(ctx)
     site = '%s:%d' % (fi.module.relpath, fi.node.lineno)
